@@ -159,6 +159,12 @@ func CoqFaults(fs []string) string {
 			out = append(out, "FReloadRequest")
 		case f == "reload-result":
 			out = append(out, "FReloadResult")
+		case f == "reload-reset":
+			out = append(out, "FReloadReset")
+		case f == "reload-eof" || f == "reload-garbage":
+			out = append(out, "FReloadSilent")
+		case f == "reload-eof-ok" || f == "reload-garbage-ok":
+			// the master reloads: not a fault, only an unusual answer
 		}
 	}
 	return hx.List(out)
